@@ -514,6 +514,9 @@ func (s *server) ReadRows(req *btpb.ReadRowsRequest, stream btpb.Bigtable_ReadRo
 	if err := validateRowRanges(req); err != nil {
 		return err
 	}
+	if err := validateRowFilter(req.Filter); err != nil {
+		return err
+	}
 
 	srs := []simpleRange{{}} // infinite range unless specified
 	if len(req.GetRows().GetRowKeys())+len(req.GetRows().GetRowRanges()) > 0 {
@@ -1039,6 +1042,9 @@ func (s *server) CheckAndMutateRow(ctx context.Context, req *btpb.CheckAndMutate
 		return nil, status.Errorf(codes.NotFound, "table %q not found", req.TableName)
 	}
 	res := &btpb.CheckAndMutateRowResponse{}
+	if err := validateRowFilter(req.PredicateFilter); err != nil {
+		return nil, err
+	}
 
 	defer tbl.write()
 	tbl.mu.Lock()
